@@ -173,6 +173,37 @@ def run(tier, replay=None):
             fam = ''.join(ch for ch in sid if not ch.isdigit()).split(':')[0]
             chk.violation("%s:%s" % (kind, fam), "same source (%s %s), different result: %s vs %s" % (kind, sid, b['cfg1'], b['cfg2']),
                           {"source." + ("x" if kind == 'x' else "S"): src.encode('latin-1', 'replace'), "conflict.json": json.dumps(b)})
+        # "a function of the source": the specification HAS that function (spec/XBinary: tokens -> ... -> the bytes of the file); the binaries
+        # the compiler writes are compared with it byte for byte (drift grade: a deterministic difference is not this property's business)
+        import xcodegen
+        xexe = vlib.build_cxx("x_case", ["x_case.cpp"])
+        xs = [(sid, src) for kind, sid, src in srcs if kind == 'x' and not sid.startswith('file:xhexb')]
+        rng.shuffle(xs)
+        xs = [t for t in xs if not t[0].startswith('unusual')] + [t for t in xs if t[0].startswith('unusual')][:(300 if tier == "quick" else 6000)]
+        brecs = xcodegen.run_bin(d, xexe, xs, tag="c11bin")
+        bverd = xcodegen.validate_bin(brecs, d, "c11binv")
+        bcnt = collections.Counter(v['v'] + ":" + v['cls'] for v in bverd)
+        bdrift = [{"id": r_['id'], "class": v['cls'], "first_differing_byte": v['at'], "src": r_['src'][:300]} for r_, v in zip(brecs, bverd) if v['v'] == 'bad']
+        chk.set("x_sources_compiled_by_the_specification", len(brecs)); chk.set("XBinary_verdicts", dict(bcnt))
+        chk.set("DRIFT_x_binaries_differing_from_XBinary", len(bdrift))
+        if bdrift:
+            chk.set("XBinary_drift_examples", bdrift[:3])
+        chk.vacuity(bcnt["ok:same-file"] < 200, "XBinaryV: only %d files compared" % bcnt["ok:same-file"])
+        # ... and hexasm's: tokens -> AsmSyntax!Parse -> AsmBinary (relaxation at radix 16, bytes, debug tables)
+        import asmsyntax
+        aexe2 = vlib.build_cxx("asm_case", ["asm_case.cpp"])
+        asrc = [(sid, src) for kind, sid, src in srcs if kind == 'asm' and not sid.startswith('file:xhexb')]
+        rng.shuffle(asrc)
+        asrc = [t for t in asrc if t[0].startswith('file:')] + [t for t in asrc if not t[0].startswith('file:')][:(2500 if tier == "quick" else 12000)]
+        arecs = asmsyntax.run_bin(d, aexe2, asrc, tag="c11abin")
+        averd = asmsyntax.validate_bin(arecs, d, "c11abinv")
+        acnt = collections.Counter(v['v'] + ":" + v['cls'] for v in averd)
+        adrift = [{"id": r_['id'], "class": v['cls'], "first_differing_byte": v['at'], "src": r_['src'][:300]} for r_, v in zip(arecs, averd) if v['v'] == 'bad']
+        chk.set("asm_sources_assembled_by_the_specification", len(arecs)); chk.set("AsmBinary_verdicts", dict(acnt))
+        chk.set("DRIFT_hexasm_files_differing_from_AsmBinary", len(adrift))
+        if adrift:
+            chk.set("AsmBinary_drift_examples", adrift[:3])
+        chk.vacuity(acnt["ok:same-file"] < 200, "AsmBinaryV: only %d files compared" % acnt["ok:same-file"])
         acc = sum(1 for h in history if h['obs'].startswith('ok:'))
         chk.set("evaluations", len(history) - 1); chk.set("distinct_nontrivial", out['keys'])
         chk.set("sources", len(items)); chk.set("observations_of_accepted_sources_in_process", acc)
